@@ -37,6 +37,12 @@ func New(policy *Policy) (rl *RateLimiter)
   modifies clock
   ensures rl != nil && fresh(rl) && rl.policy == policy && rl.tokens == 0 && rl.cycle == 0 && rl.state == StateNormal && rl.startTime == clock
 
+func (rl *RateLimiter) AcquirePermission() (ok bool, wait time.Duration)
+  requires rl != nil && rl.policy != nil
+  requires L(rl) >= 1 && P(rl) > 0 && T(rl) >= 0
+  modifies rl.tokens, rl.cycle, rl.state, rl.rel, clock
+  ensures bounded-wait: ok ==> 0 <= wait && wait <= T(rl)
+
 func (rl *RateLimiter) acquirePermission(count int) (ok bool, wait time.Duration)
   requires rl != nil && rl.policy != nil
   requires L(rl) >= 1 && P(rl) > 0 && T(rl) >= 0
